@@ -121,8 +121,8 @@ Definition put (p : path) (chunks : list (list N)) : list op :=
   map (Append p) (filter (fun c => match c with [] => false | _ => true end) chunks).
 
 (* one file of the staging directory: W = open(..., "w").write(data);
-   WC = ContentsFile.flush: AtomicWriteFile (.update.CONTENTS, umask 0o200 -> 0o466, chmod 0o644,
-   chown, rename) *)
+   WC = ContentsFile.flush: AtomicWriteFile (.update.CONTENTS opened under umask 0o200 -> 0o466,
+   chmod 0o644 and chown at once, the writes, rename on close) *)
 Inductive item : Type :=
 | W (name : str) (chunks : list (list N))
 | WC (chunks : list (list N)).
@@ -131,7 +131,7 @@ Definition item_ops (s : fs) (d : path) (it : item) : list op :=
   | W n ch => open_w s (d ++ [n]) 420 :: put (d ++ [n]) ch
   | WC ch =>
       let u := d ++ [UPDATE ++ CONTENTS] in
-      open_w s u 310 :: put u ch ++ [Chmod u 420; Chown u (Some 0%N) (Some 0%N); Rename u (d ++ [CONTENTS])]
+      open_w s u 310 :: [Chmod u 420; Chown u (Some 0%N) (Some 0%N)] ++ put u ch ++ [Rename u (d ++ [CONTENTS])]
   end.
 
 Definition tmpdir (loc : path) (cat pf : str) : path := loc ++ [cat; TMP ++ pf].
@@ -177,6 +177,14 @@ Definition vdb_uninstall_ops (s : fs) (loc : path) (cat old : str) (tree : list 
    uninstall.finalize_data; install.finalize_data *)
 Definition vdb_replace_ops (s : fs) (loc : path) (cat old pf : str) (tree : list rt) (items : list item) : list op :=
   vdb_stage s loc cat pf items ++ vdb_unmerge loc cat old tree ++ vdb_commit loc cat pf.
+
+(* the crash points at which replace / uninstall are NOT old-or-new lie strictly between: *)
+Definition replace_lo (loc : path) (s : fs) (cat pf : str) (items : list item) : nat :=
+  length (vdb_stage s loc cat pf items) + 1.
+Definition replace_hi (loc : path) (s : fs) (cat old pf : str) (tree : list rt) (items : list item) : nat :=
+  replace_lo loc s cat pf items + (length (rmtree_ops (pkgdir loc cat old) tree) + 2).
+Definition uninstall_hi (loc : path) (cat old : str) (tree : list rt) : nat :=
+  1 + length (rmtree_ops (pkgdir loc cat old) tree).
 
 (* binpkg: tarball written to .tmp.PID.PF.tbz2 (first chunk: the compressed tar, written by the
    compressor; then the xpak writes), chmod 0o644, rename; then the Packages cache *)
@@ -266,6 +274,13 @@ Definition sc_ops (c : scen) : list op :=
   | KBInstall => bin_install_ops (sc_fs c) (sc_loc c) (sc_cat c) (sc_pid c) (sc_pf c) (sc_chunks c) (sc_cache c)
   | KBUninstall => bin_uninstall_ops (sc_fs c) (sc_loc c) (sc_cat c) (sc_old c)
   end.
+Definition sc_window (c : scen) : nat * nat :=
+  match sc_kind c with
+  | KVReplace => (replace_lo (sc_loc c) (sc_fs c) (sc_cat c) (sc_pf c) (sc_items c),
+                  replace_hi (sc_loc c) (sc_fs c) (sc_cat c) (sc_old c) (sc_pf c) (sc_tree c) (sc_items c))
+  | KVUninstall => (1, uninstall_hi (sc_loc c) (sc_cat c) (sc_old c) (sc_tree c))
+  | _ => (0, 0)
+  end.
 Definition is_vdb (c : scen) : bool :=
   match sc_kind c with KVInstall | KVUninstall | KVReplace => true | _ => false end.
 Definition sc_state (c : scen) (k : nat) : fs := run (firstn k (sc_ops c)) (sc_fs c).
@@ -304,13 +319,37 @@ Definition view_eqb (a b : val) : bool :=
   | _, _ => val_eqb a b
   end.
 
-(* stream "ops": the traced successful calls of the complete run are the model's op list, and
-   every model op succeeds on the model state *)
+(* stream "ops": the traced successful calls of the complete run are the model's op list, every
+   model op succeeds on the model state; and the window of the known classes *)
 Definition run_ops (i : scen * list op) : val :=
-  VB (ops_eqb (sc_ops (fst i)) (snd i)
-      && match run_opt (sc_ops (fst i)) (sc_fs (fst i)) with Some _ => true | None => false end).
-(* stream "state": the snapshot after a crash before op k is the model state *)
-Definition run_state (i : scen * nat * fs) : val :=
-  let '(c, k, real) := i in VB (fs_eqb (sc_state c k) real).
-(* stream "view": the fresh view after a crash before op k (compared with view_eqb) *)
-Definition view_mismatch (i : scen * nat) (r : val) : bool := negb (view_eqb (sc_view (fst i) (snd i)) r).
+  VL [VB (ops_eqb (sc_ops (fst i)) (snd i));
+      VB match run_opt (sc_ops (fst i)) (sc_fs (fst i)) with Some _ => true | None => false end;
+      VZ (Z.of_nat (fst (sc_window (fst i)))); VZ (Z.of_nat (snd (sc_window (fst i))))].
+(* snapshot comparison (repositories hold plain files and directories, no hard links): same
+   paths, same nodes up to inode numbers (BUMPED directory mtimes as in Fs.node_eqb_noino),
+   and no inode occurs twice on either side *)
+Definition inos (s : fs) : list N :=
+  flat_map (fun e => match ino_of (snd e) with Some i => [i] | None => [] end) s.
+Fixpoint nodupb {A} (eqb : A -> A -> bool) (l : list A) : bool :=
+  match l with
+  | [] => true
+  | x :: r => negb (existsb (eqb x) r) && nodupb eqb r
+  end.
+Definition state_eqb (model real : fs) : bool :=
+  forallb (fun e => match lookup real (fst e) with
+                    | Some n => node_eqb_noino (snd e) n | None => false end) model
+  && Nat.eqb (length model) (length real)
+  && nodupb path_eqb (keys model) && nodupb N.eqb (inos model) && nodupb N.eqb (inos real).
+
+(* what the harness asks about one scenario *)
+Inductive probe : Type :=
+| POps (c : scen) (traced : list op)          (* recorded: [ops equal; all succeed; lo; hi] *)
+| PState (c : scen) (k : nat) (real : fs)     (* snapshot after a crash with k ops done *)
+| PView (c : scen) (k : nat) (old new : val). (* recorded: the fresh view after that crash *)
+(* (A) true = model and implementation disagree *)
+Definition probe_bad (p : probe) (r : val) : bool :=
+  match p with
+  | POps c traced => negb (val_eqb (run_ops (c, traced)) r)
+  | PState c k real => negb (state_eqb (sc_state c k) real)
+  | PView c k _ _ => negb (view_eqb (sc_view c k) r)
+  end.
